@@ -1,6 +1,6 @@
 //! C15 — merged network sources keep per-sender order and lose nothing.
 //!
-//! Subject: the real `MergeSource` over 2–4 real `TaggedSource`s (hook H2 constructors), each
+//! Subject: the real `MergeSource` over 1–5 real `TaggedSource`s (hook H2 constructors), each
 //! wrapping a scripted stream. A script is a finite sequence over {Item, Pending} followed by
 //! `Ended`; one answer is consumed per poll. ALL scripts within (max items, max pendings) per
 //! source are enumerated (plain exhaustive DFS of `vf_explore::explore`, every point a free point).
@@ -15,7 +15,7 @@ use hydro_deploy_integration::{MergeSource, TaggedSource};
 use vf_explore::{Chooser, Report, Stats, Value, catch, explore, json, ncpu, par_map};
 
 /// Tags deliberately differ from the positional index and are not sorted.
-const TAGS: [u32; 4] = [7, 3, 9, 5];
+const TAGS: [u32; 5] = [7, 3, 9, 5, 1];
 
 #[derive(Clone, Copy, PartialEq, Eq, Hash, Debug)]
 enum A {
@@ -204,17 +204,6 @@ fn run_case(scripts: &[Script]) -> Obs {
         } else {
             fault("panic", format!("after call {t}: verif_state panicked"));
         }
-        // a source may be polled at most once per call and only if live
-        {
-            let mut seen = 0u8;
-            for (i, _) in &polled {
-                if seen >> i & 1 == 1 {
-                    // Not forbidden by the statement by itself; an item consumed twice in one call
-                    // would show up as a lost item. Nothing to flag here.
-                }
-                seen |= 1 << i;
-            }
-        }
         let stop = matches!(res, Res::None | Res::Panic(_));
         calls.push(Call { ready_mask, live_mask, res, polled, state });
         if stop {
@@ -336,8 +325,8 @@ pub fn replay(case: &Value) -> bool {
         .and_then(|s| s.as_array())
         .map(|a| a.iter().filter_map(|x| x.as_str()).map(script_from).collect())
         .unwrap_or_default();
-    if scripts.len() < 1 || scripts.len() > 4 {
-        println!("MACHINERY-ERROR: replay case needs 1..=4 scripts");
+    if scripts.is_empty() || scripts.len() > TAGS.len() {
+        println!("MACHINERY-ERROR: replay case needs 1..=5 scripts");
         std::process::exit(2);
     }
     let o = run_case(&scripts);
@@ -403,9 +392,9 @@ pub fn run(rep: &mut Report) {
     let thorough = rep.thorough();
     // (number of sources, max items per source, max pendings per source)
     let configs: Vec<(usize, usize, usize)> = if thorough {
-        vec![(1, 3, 3), (2, 3, 3), (3, 3, 3), (4, 2, 2), (2, 4, 4)]
+        vec![(1, 3, 3), (2, 4, 4), (3, 3, 3), (3, 4, 3), (4, 3, 2), (5, 2, 2)]
     } else {
-        vec![(1, 2, 2), (2, 2, 2), (3, 2, 2), (2, 3, 2)]
+        vec![(1, 2, 2), (2, 3, 3), (3, 3, 2), (4, 2, 2)]
     };
     rep.rule = "one case = one tuple of per-source scripts (sequence over {Item,Pending} then Ended, one answer per poll), \
                 enumerated exhaustively within (max items, max pendings) per source; non-trivial = at least two sources and \
